@@ -4,6 +4,7 @@ model's function.
 -/
 import WowSrp.Props.Source.ApiLinkBase
 import WowSrp.Props.Source.HashesReconnect
+import WowSrp.Props.Source.ApiReconnect
 namespace WowSrp
 open MiniApi
 
@@ -23,5 +24,16 @@ theorem C05_linked_verify_reconnection_attempt (C : Crypto) (be : Backend) (s : 
   simp [Gen.CodeApi.verifyReconnectionAttempt, ApiFn.run, runBody, Rhs.eval, drawKinds, Ret.eval, atomsVal, fieldsVal, Atom.val, lookup, bindVar, setField,
     reconnectLinkedPrims, hashCallee_reconnect_proof, selfServer, eqVal, SrpServer.verifyReconnectionAttempt, Out.bind, bind]
 
+
+/-- `SrpClient::calculate_reconnect_values` with `calculate_reconnect_proof` meaning its translated term -/
+theorem C05_linked_calculate_reconnect_values (C : Crypto) (be : Backend) (c : SrpClient) (sd draw : Bytes) (rest : List Bytes) :
+    Gen.CodeApi.calculateReconnectValues.run (reconnectLinkedPrims C be) (selfClient c) [.bytes sd] (draw :: rest)
+      = some (.ok (.struct "SrpClientReconnection"
+          [("challenge_data", .bytes (c.calculateReconnectValues C sd draw).1), ("proof", .bytes (c.calculateReconnectValues C sd draw).2)],
+          selfClient c, rest)) := by
+  simp [Gen.CodeApi.calculateReconnectValues, ApiFn.run, runBody, Rhs.eval, drawKinds, Ret.eval, atomsVal, fieldsVal, Atom.val, lookup, bindVar,
+    reconnectLinkedPrims, hashCallee_reconnect_proof, selfClient, SrpClient.calculateReconnectValues, Out.bind, bind]
+
 #print axioms C05_linked_verify_reconnection_attempt
+#print axioms C05_linked_calculate_reconnect_values
 end WowSrp
